@@ -11,7 +11,10 @@ RULE = ("for detached binary and text signatures of 5 key kinds (Ed25519Legacy v
         "packet (exhaustive for three keys, 200 sampled bits otherwise), classified by field from the packet layout (header, version, type, algorithms, hashed length/area, unhashed, prefix, salt, value, MPI bit counts); "
         "truncations; every bit of the content (exhaustive up to 64 octets), truncations, insertions, LF<->CRLF conversion (accept/reject expected from the model's subject octets); every other key; "
         "every bit of the verifying key packet. Inline one-pass messages: every bit of the message (small) with the payload read compared through the model. Certificates (v4, v6 with subkey): every bit, "
-        "verify_bindings accepted => every certified component still present is an original one. Direct predicate: a must-reject change is never accepted and an accepted change never alters a signed component")
+        "verify_bindings accepted => every certified component still present is an original one. Certificate-forming signatures built one by one (v4 EdDSA, v6 Ed25519; thorough also P-256, Ed448, RSA): "
+        "direct-key, key revocation (self and third-party), the four certification levels and certification revocation (self and third-party), subkey binding, subkey revocation, primary-key binding -- "
+        "each through every entry point that verifies its kind (verify_key, verify_key_third_party, verify_certification, verify_third_party_certification, verify_subkey_binding, verify_primary_key_binding): "
+        "every bit of the signature packet, another signee / signer / user id, the wrong entry point; and direct-key + revocation signatures inside a certificate through verify_bindings. Direct predicate: a must-reject change is never accepted and an accepted change never alters a signed component")
 TRUSTED = [
     "theorems coq/theories/Props/C02.v over Sig/Preimage.v, Sig/Verify.v: acceptance binds every signed component unless Collision or Forged (explicit events)",
     "field classification of signature-packet offsets is done by the harness from the RFC packet layout (src/bin/c02.rs layout/field_of); unhashed area and MPI bit counts are 'may accept'",
